@@ -190,6 +190,7 @@ fn client_main(sh: Arc<Shared>, me: usize, start: usize, mut saved: Vec<Arc<Buil
     }
     h.no_shortcut.set(false);
     h.no_early.set(false);
+    h.widen_source.set(false);
     let script = &sh.scripts[me];
     let mut first_on_thread = fresh_thread;
     let mut after_cancel = false;
@@ -389,7 +390,20 @@ fn soak_world(seed: u64, r: &mut Rng) -> C12World {
     };
     C12World {
         operands: vec![big_a, big_b, tiny_a, tiny_b],
-        clients: vec![vec![call(0, 1, op, 1), call(2, 3, r.below(4) as u8, n - 1), call(0, 1, op, 1)]],
+        clients: vec![{
+            // a few small calls first, so that the first large call is not the thread's very first call and a
+            // wrap-around falls on a small call
+            let lead = r.below(6) as u32;
+            let tiny_op = r.below(4) as u8;
+            let mut script = Vec::new();
+            if lead > 0 {
+                script.push(call(2, 3, tiny_op, lead));
+            }
+            script.push(call(0, 1, op, 1));
+            script.push(call(2, 3, tiny_op, n - 1));
+            script.push(call(0, 1, op, 1));
+            script
+        }],
         yield16: 0,
         sched_seed: Rng::stream(seed, "schedule").next(),
         schedule: None,
